@@ -50,9 +50,13 @@ func TestVerifC07(t *testing.T) {
 			synctest.Test(t, func(t *testing.T) { c07Run(c, res) })
 		})
 		if p {
+			prev, _ := res["why"].(string)
 			res["ok"] = false
 			if strings.Contains(msg, "deadlock") {
 				res["why"] = "goroutine left behind after the connection ended (synctest: " + msg + ")"
+				if prev != "" {
+					res["why"] = prev + "; " + res["why"].(string)
+				}
 				res["leak"] = true
 			} else {
 				res["why"] = "panic: " + msg
@@ -220,6 +224,9 @@ func c07Verdict(log []vfEv, timeout int64, slack int64, fail func(string)) {
 	cur := map[uint32]int{} // session id -> its open socket
 	lostT := int64(-1)
 	nilClose := map[string]bool{} // "sid@t" of logger.Close(sid, nil)
+	// arrival time of the latest datagram of an id: the traffic a dial belongs to.  It equals the time of the dial
+	// record unless the hook / dial was slow (the record is written when the call returns)
+	arrived := map[uint32]int64{}
 	for _, ev := range log {
 		switch ev.K {
 		case "dial":
@@ -227,10 +234,15 @@ func c07Verdict(log []vfEv, timeout int64, slack int64, fail func(string)) {
 				if _, dup := socks[ev.Sock]; dup {
 					fail("socket dialed twice")
 				}
-				socks[ev.Sock] = &sk{owner: ev.Sid, dialT: ev.T, closeT: -1, acts: []int64{ev.T}}
+				at, has := arrived[ev.Sid]
+				if !has {
+					at = ev.T
+				}
+				socks[ev.Sock] = &sk{owner: ev.Sid, dialT: ev.T, closeT: -1, acts: []int64{at}}
 				cur[ev.Sid] = ev.Sock
 			}
 		case "recv":
+			arrived[ev.Sid] = ev.T
 			if k, has := cur[ev.Sid]; has && socks[k].closeT < 0 {
 				socks[k].acts = append(socks[k].acts, ev.T)
 			}
@@ -354,10 +366,11 @@ func c07Fresh(log []vfEv, slack int64, fail func(string)) {
 		hook, hookOk, nw        bool
 		dial, dialOk, wrote     bool
 		sock                    int
-		closedBeforeDial, rlErr bool
+		closedBeforeDial        bool
 		was                     int
 	}
 	var w *want
+	winSid, winErr := uint32(0), false // the id the receive loop is feeding; its hook / dial failed
 	settle := func(x *st) {
 		x.k, x.sock, x.logT, x.slow, x.byRL = absent, -1, -1, false, false
 	}
@@ -407,6 +420,7 @@ func c07Fresh(log []vfEv, slack int64, fail func(string)) {
 			if ev.K == "recverr" {
 				return // cleanup(false) follows: covered by the exit checks
 			}
+			winSid, winErr = ev.Sid, false
 			x := get(ev.Sid)
 			switch x.k {
 			case absent:
@@ -433,9 +447,14 @@ func c07Fresh(log []vfEv, slack int64, fail func(string)) {
 		case "hook":
 			if w != nil && ev.Sid == w.sid {
 				w.hook, w.hookOk = true, ev.Ok
-				if !ev.Ok {
-					w.rlErr = true
-				}
+			}
+			if ev.Sid == winSid && !ev.Ok {
+				winErr = true
+			}
+			// only initConn on an open entry without a socket reaches the hook: whatever was known before, the
+			// table now holds an entry of this id (a fresh one if the previous session was closing)
+			if x := get(ev.Sid); x.k == closing || x.k == unknown || x.k == frag || x.k == absent {
+				x.k, x.sock, x.logT, x.slow, x.byRL = dialing, -1, -1, false, false
 			}
 		case "new":
 			if w != nil && ev.Sid == w.sid {
@@ -443,11 +462,11 @@ func c07Fresh(log []vfEv, slack int64, fail func(string)) {
 			}
 		case "dial":
 			x := get(ev.Sid)
+			if ev.Sid == winSid && !ev.Ok {
+				winErr = true
+			}
 			if w != nil && ev.Sid == w.sid {
 				w.dial, w.dialOk, w.sock = true, ev.Ok, ev.Sock
-				if !ev.Ok {
-					w.rlErr = true
-				}
 				if w.closedBeforeDial && ev.Ok {
 					fail(fmt.Sprintf("session %d was reported closed while its first dial was still in progress (datagram received at %d ms, dial returned at %d ms, ok=%v): a socket is created for a session that already exited", ev.Sid, w.t, ev.T, ev.Ok))
 				}
@@ -478,16 +497,20 @@ func c07Fresh(log []vfEv, slack int64, fail func(string)) {
 			}
 		case "logclose":
 			x := get(ev.Sid)
-			if w != nil && ev.Sid == w.sid && !w.dial && !w.rlErr {
+			if w != nil && ev.Sid == w.sid && !w.dial && !winErr {
 				w.closedBeforeDial = true
 			}
-			x.byRL = w != nil && ev.Sid == w.sid && w.rlErr && !ev.Ok
+			// Close with an error right after the receive loop's own failed hook / dial for this id: the closer
+			// is the receive loop (an entry without a socket has no reply loop, the sweeper passes a nil error)
+			x.byRL = ev.Sid == winSid && winErr && !ev.Ok
 			x.k, x.logT, x.slow, x.endedT = closing, ev.T, ev.A == "slow", ev.T
 		case "quiet":
 			if ev.Sock < 0 {
 				break
 			}
-			exp, definite := 0, true
+			// the receive loop is in ReceiveMessage, or inside a slow Hook / UDP() (the hook record is written when
+			// the call returns): an expectation without its hook record is judged when the receive loop receives again
+			exp, definite := 0, w == nil || w.hook
 			for _, x := range ids {
 				switch x.k {
 				case absent:
